@@ -112,7 +112,7 @@ Section FractionQ.
 
   Lemma nmax0_nonneg : forall r : Q, 0 <= nmax0 r.
   Proof.
-    intros r. unfold nmax0. cbn [nisnan nltb Num_Q n0]. destruct (Qltb r 0) eqn:E; [lra|].
+    intros r. unfold nmax0. cbn [nisnan nltb nsignneg Num_Q n0]. destruct (Qltb r 0) eqn:E; [lra|].
     apply Qltb_false in E. exact E.
   Qed.
 
@@ -337,8 +337,6 @@ Section PosQ.
     destruct (Hsim ys Hrun) as (xs & Hxs & Hrel). exists xs. split; [exact Hxs|].
     assert (Hok : w_ok A V P D w0).
     { unfold stream_new in Hw.
-      destruct (match slice with Some (st, e) => sub_chk e st | None => Ok (Z.of_nat (length audio)) end) as [n| |];
-        cbn [obind] in Hw; try discriminate.
       inversion Hw; subst w0. split; cbn [w_sound z_core y_fpos y_sr]; [split; [apply Qle_refl | reflexivity] | lia]. }
     pose proof (run_frac A azero F interp cast fuel powf ascale V vinterp silence identity amp P pinterp panned audio
                          D dpos dsize dnext dseek derr cap evs w0 ys false Hok Hdts Hrun) as Hfrac.
